@@ -559,6 +559,60 @@ theorem runSchedule_sound (call : L → Option A) (s s' : Proto L A) (cs : List 
         exact ih s₀ t (Steps.tail h0 (step?_sound call s t c hs)) h
   exact key cs s s (Steps.refl s) h
 
+theorem flatten_set_head {α} (ws : List (List α)) (i : ℕ) (x : α) (tl : List α)
+    (h : ws[i]? = some (x :: tl)) : ws.flatten.Perm (x :: (ws.set i tl).flatten) := by
+  induction ws generalizing i with
+  | nil => simp at h
+  | cons w ws ih =>
+    cases i with
+    | zero =>
+      simp only [List.getElem?_cons_zero, Option.some.injEq] at h
+      subst h
+      simp
+    | succ i =>
+      simp only [List.getElem?_cons_succ] at h
+      simp only [List.set_cons_succ, List.flatten_cons]
+      exact (List.Perm.append_left w (ih i h)).trans List.perm_middle
+
+/-- the driver's admissibility test is sound: an accepted order is a permutation of all block elements in which
+    every block keeps its own order (the two conclusions of `interleave_perm`) -/
+theorem isShuffle_sound {α} [DecidableEq α] (ws : List (List α)) (out : List α)
+    (h : isShuffle ws out = true) : out.Perm ws.flatten ∧ ∀ w ∈ ws, w.Sublist out := by
+  induction out generalizing ws with
+  | nil =>
+    simp only [isShuffle, List.all_eq_true, List.isEmpty_iff] at h
+    refine ⟨?_, fun w hw => by rw [h w hw]⟩
+    have : ws.flatten = [] := by
+      rw [List.flatten_eq_nil_iff]; exact h
+    rw [this]
+  | cons x rest ih =>
+    simp only [isShuffle] at h
+    cases hf : ws.findIdx? (fun w => w.head? = some x) with
+    | none => simp [hf] at h
+    | some i =>
+      simp only [hf] at h
+      obtain ⟨hi, hp, -⟩ := List.findIdx?_eq_some_iff_getElem.mp hf
+      simp only [decide_eq_true_eq] at hp
+      obtain ⟨tl, htl⟩ : ∃ tl, ws[i] = x :: tl := by
+        cases hw : ws[i] with
+        | nil => rw [hw] at hp; simp at hp
+        | cons y tl => rw [hw] at hp; simp at hp; exact ⟨tl, by rw [hp]⟩
+      have hget : ws[i]? = some (x :: tl) := by rw [List.getElem?_eq_getElem hi, htl]
+      have hD : (ws.getD i []).drop 1 = tl := by
+        simp [List.getD, hget]
+      rw [hD] at h
+      obtain ⟨ih1, ih2⟩ := ih _ h
+      refine ⟨((List.Perm.cons x ih1).trans (flatten_set_head ws i x tl hget).symm), ?_⟩
+      intro w hw
+      obtain ⟨j, hj⟩ := List.getElem?_of_mem hw
+      by_cases hij : i = j
+      · subst hij
+        rw [hget] at hj; cases hj
+        have : tl ∈ ws.set i tl := List.mem_iff_getElem?.mpr ⟨i, by rw [List.getElem?_set_self hi]⟩
+        exact (ih2 tl this).cons_cons x
+      · have : w ∈ ws.set i tl := List.mem_iff_getElem?.mpr ⟨j, by rw [List.getElem?_set_ne hij]; exact hj⟩
+        exact (ih2 w this).cons x
+
 /-- non-vacuity of `interleave_perm` and `failure_propagates`: a two-worker execution that interleaves, and one
     with a failing locus that ends with the error status -/
 example :
